@@ -203,6 +203,41 @@ def gen(repo):
                 for m in re.finditer(r"\.set_verify_id\(\s*([^)]*)\)", strip_tests(read(repo, "crates/core/src/" + rel))):
                     if m.group(1).strip() != "true": offs.append(rel)
     verif["never_switched_off"] = not offs
+    # every construction of a DecryptBackend and every way to replace the dbe of an open repository
+    NEW_OK = {("repository.rs", "open_may_use_hot"), ("repository.rs", "open_raw"),
+              ("commands/config.rs", "save_config"), ("commands/config.rs", "save_config_hot")}
+    new_sites, dbe_assign, idx_sites = [], [], []
+    for dp, dn, fn in os.walk(root):
+        dn.sort()
+        for f in sorted(fn):
+            rel = os.path.relpath(os.path.join(dp, f), root)
+            if not f.endswith(".rs") or rel.startswith("verif_hooks"):
+                continue
+            src = strip_tests(read(repo, "crates/core/src/" + rel))
+            for m in re.finditer(r"\bDecryptBackend\s*::\s*(?:<[^>]*>\s*::\s*)?new\s*\(", src):
+                new_sites.append((rel, enclosing_fn(src, m.start())))
+            for m in re.finditer(r"\bOpenStatus\s*\{", src):
+                pre = src[max(0, m.start() - 40):m.start()]
+                if re.search(r"(struct|for|->|&|&mut)\s*$", pre):
+                    continue      # type definition / impl header / return type, not a literal
+                dbe_assign.append((rel, enclosing_fn(src, m.start()), "OpenStatus literal"))
+            for m in re.finditer(r"\.dbe\s*=(?!=)|&mut\s+[\w.()]*\.dbe\b|->\s*&mut\s+DecryptBackend|mem::(?:replace|swap|take)\([^)]*dbe", src):
+                dbe_assign.append((rel, enclosing_fn(src, m.start()), " ".join(m.group(0).split())))
+            for m in re.finditer(r"\bstream_(all|list)\s*::\s*<\s*IndexFile\s*>", src):
+                idx_sites.append((rel, enclosing_fn(src, m.start()), m.group(1)))
+    verif["decrypt_backend_constructed_only_at_known_sites"] = bool(new_sites) and all(x in NEW_OK for x in new_sites)
+    verif["open_dbe_assigned_only_in_open_raw"] = dbe_assign == [("repository.rs", "open_raw", "OpenStatus literal")]
+    # (6) the loaders
+    sa = [squash(b) for b in bodies(strip_tests(dsrc), "stream_all")]
+    sl = [squash(b) for b in bodies(strip_tests(dsrc), "stream_list")]
+    isrc = read(repo, "crates/core/src/index.rs")
+    loader = {
+        "index_consumers_use_stream_all": bool(idx_sites) and all(k == "all" for _, _, k in idx_sites),
+        "global_index_loader_streams_all": re.search(r"for index in be\.stream_all::<IndexFile>\(p\)\? \{ collector\.extend\(index\?\.1\.packs\); \}",
+                                                     squash(fn_body(isrc, "new_from_collector"))) is not None,
+        "stream_all_lists_everything": any(re.fullmatch(r"let list = self\.list\(F::TYPE\)\?; let list: Vec<_> = list\.into_iter\(\)\.map\(F::Id::from\)\.collect\(\); self\.stream_list\(list, p\)", b) for b in sa),
+        "stream_list_reads_every_id": any(re.search(r"list\.into_par_iter\(\)\.try_for_each\(\|id\| \{ let file = be\.get_file::<F>\(&id\)\.map\(\|file\| \(id, file\)\);", b) for b in sl),
+    }
     out = ["(* GENERATED by props/C04/extract.py from crates/core/src - do not edit *)",
            "From Verif.Base Require Import Tactics.",
            "From Verif.C04 Require Import Model.",
@@ -227,13 +262,21 @@ def gen(repo):
     out.append("Definition x_password_passed_unchanged : bool := %s." % ("true" if all(ok for _, ok in flow_ok) else "false"))
     out.append("(* id verification on the read path: %s *)" % ", ".join("%s=%s" % (k, "yes" if v else "NO") for k, v in verif.items()))
     out.append("Definition x_read_verifies_id : bool := %s." % ("true" if all(verif.values()) else "false"))
+    out.append("(* DecryptBackend::new sites: %s *)" % "; ".join("%s::%s" % x for x in new_sites))
+    out.append("(* ways the dbe of an open repository is set: %s *)" % "; ".join("%s::%s (%s)" % x for x in dbe_assign))
+    out.append("(* index consumers: %s *)" % "; ".join("%s::%s stream_%s" % x for x in idx_sites))
+    out.append("(* loaders: %s *)" % ", ".join("%s=%s" % (k, "yes" if v else "NO") for k, v in loader.items()))
+    out.append("Definition x_loader_reads_every_listed_file : bool := %s." % ("true" if all(loader.values()) else "false"))
     hist = {}
     for _, _, _, c in sites:
         hist[c] = hist.get(c, 0) + 1
     return "\n".join(out) + "\n", {"sites": sites, "classes": hist, "unencrypted": unenc,
                                    "nonce_len": nonce_len, "overhead": overhead,
                                    "kdf_password_argument": {k: a[0] for k, a in kdf_args.items()},
-                                   "password_flow": dict(flow_ok), "read_verifies_id": verif}
+                                   "password_flow": dict(flow_ok), "read_verifies_id": verif, "loader_reads_every_listed_file": loader,
+                                   "decrypt_backend_new_sites": ["%s::%s" % x for x in new_sites],
+                                   "open_dbe_set_at": ["%s::%s (%s)" % x for x in dbe_assign],
+                                   "index_consumers": ["%s::%s stream_%s" % x for x in idx_sites]}
 
 
 if __name__ == "__main__":
